@@ -256,7 +256,7 @@ Definition linefeed (s : st) (reverse : bool) : result st :=
     else Ok (set_term_cursor s x (y + 1)).
 
 (* TermCanvas.carriage_return / newline *)
-Definition carriage_return (s : st) : st := set_term_cursor s 0 (snd (cur s)).
+Definition carriage_return (s : st) : st := set_term_cursor (with_rotten s false) 0 (snd (cur s)).
 Definition newline (s : st) : result st := linefeed (carriage_return s) false.
 
 (* TermCanvas.move_cursor(x, y, relative_x, relative_y, relative) *)
@@ -265,7 +265,7 @@ Definition move_cursor (s : st) (x y : Z) (relx rely rel : bool) : st :=
   let relx := relx || rel in
   let x := if relx then x + fst (cur s) else x in
   let y := if rely then y + snd (cur s) else if m_constrain (modes s) then y + sr_start s else y in
-  set_term_cursor s x y.
+  set_term_cursor (with_rotten s false) x y.
 
 (* ---------- cells ---------- *)
 (* TermCanvas.set_char(char, x, y) *)
@@ -302,15 +302,17 @@ Definition remove_chars (s : st) (position : Z * Z) (chars : Z) : result st :=
 (* TermCanvas.insert_lines(row=None, lines) *)
 Definition insert_lines (s : st) (lines : Z) : result st :=
   let rw := snd (cur s) in
+  if negb ((sr_start s <=? rw) && (rw <=? sr_end s)) then Ok s else     (* outside the scrolling region: ignored *)
   let lines := if lines =? 0 then 1 else lines in
   let lines := Z.min lines (height s) in
   do t <- iter_res (Z.to_nat lines)
-            (fun t => do p <- pop (insert t rw (empty_line s [32])) (sr_end s); Ok (snd p)) (term s);
+            (fun t => do p <- pop t (sr_end s); Ok (insert (snd p) rw (empty_line s [32]))) (term s);
   Ok (with_term s t).
 
 (* TermCanvas.remove_lines(row=None, lines) *)
 Definition remove_lines (s : st) (lines : Z) : result st :=
   let rw := snd (cur s) in
+  if negb ((sr_start s <=? rw) && (rw <=? sr_end s)) then Ok s else     (* outside the scrolling region: ignored *)
   let lines := if lines =? 0 then 1 else lines in
   let lines := Z.min lines (height s) in
   do t <- iter_res (Z.to_nat lines)
@@ -481,7 +483,7 @@ Definition set_mode (s : st) (mode : Z) (flag qmark : bool) : result st :=
     else if mode =? 5 then
       do s <- (if Bool.eqb (m_reverse_video m) flag then Ok s else reverse_video s (negb flag));
       Ok (with_modes s (set_m_reverse_video (modes s) flag))
-    else if mode =? 6 then Ok (set_term_cursor (with_modes s (set_m_constrain m flag)) 0 0)
+    else if mode =? 6 then Ok (set_term_cursor (with_rotten (with_modes s (set_m_constrain m flag)) false) 0 0)
     else if mode =? 7 then Ok (with_modes s (set_m_autowrap m flag))
     else if mode =? 25 then Ok (set_term_cursor_here (with_modes s (set_m_visible m flag)))
     else if mode =? 2004 then Ok (with_modes s (set_m_bracketed m flag))
@@ -506,7 +508,7 @@ Definition csi_set_scroll (s : st) (top bottom : Z) : st :=
   if (top <? bottom) && (bottom <=? height s) then
     let s := with_sr_start s (snd (constrain s 0 (top - 1) 1)) in
     let s := with_sr_end s (snd (constrain s 0 (bottom - 1) 1)) in
-    set_term_cursor s 0 0
+    set_term_cursor (with_rotten s false) 0 0
   else s.
 
 (* TermCanvas.csi_clear_tabstop(mode) *)
@@ -547,7 +549,7 @@ Definition csi_erase_line (s : st) (mode : Z) : result st :=
 (* TermCanvas.csi_erase_display(mode) *)
 Definition csi_erase_display (s : st) (mode : Z) : result st :=
   do s <- (if mode =? 0 then erase s (cur s) (width s - 1, height s - 1) else Ok s);
-  if mode =? 1 then erase s (0, 0) (fst (cur s) - 1, snd (cur s))
+  if mode =? 1 then erase s (0, 0) (cur s)
   else if mode =? 2 then Ok (clear s (Some (cur s)))
   else Ok s.
 
@@ -566,7 +568,7 @@ Definition restore_cursor (s : st) (with_attrs : bool) : st :=
   match saved_cur s with
   | None => s
   | Some (x, y) =>
-      let s := set_term_cursor s x y in
+      let s := set_term_cursor (with_rotten s false) x y in
       if with_attrs then
         match saved_attrs s with
         | Some (a, (sg, ac, cu)) =>
@@ -622,13 +624,14 @@ Definition push_cursor (s : st) (ch : list Z) : result st :=
     else
       let x := x + 1 in
       do r <- (if (width s <=? x) && rotten s then
-                 do s' <- (if sr_end s <=? y then scroll s false else Ok s);
-                 let y' := if sr_end s <=? y then y else y + 1 in
+                 do s' <- (if y =? sr_end s then scroll s false else Ok s);
+                 let y' := if y =? sr_end s then y else if y <? height s - 1 then y + 1 else y in
                  Ok (set_term_cursor s' 0 y', 1, y')
                else Ok (s, x, y));
       let '(s, x, y) := r in
       do s <- push_char s ch x y;
-      Ok (with_rotten s false)
+      (* still "rotten" if the character went into the rightmost position (one column terminal) *)
+      Ok (with_rotten s (width s <=? x))
   else
     let x := if x + 1 <? width s then x + 1 else x in
     push_char (with_rotten s false) ch x y.
@@ -773,7 +776,8 @@ Definition process_char (s : st) (ch : list Z) : result st :=
     do s' <- linefeed s false;
     if m_lfnl (modes s') then Ok (carriage_return s') else Ok s'
   else if ndc && is1 ch 9 then tab s
-  else if ndc && is1 ch 8 then (if 0 <? x then Ok (set_term_cursor s (x - 1) y) else Ok s)
+  else if ndc && is1 ch 8 then
+    (let s := with_rotten s false in if 0 <? x then Ok (set_term_cursor s (x - 1) y) else Ok s)
   else if ndc && is1 ch 7 && negb (pstate s =? 2) then Ok (with_events s (Beep :: events s))
   else if ndc && in1 ch [24; 26] then Ok (leave_escape s)
   else if ndc && in1 ch [0; 127] then Ok s
@@ -864,6 +868,7 @@ Definition resize (s : st) (w h : Z) : result st :=
            else if h <? height s then resize_shrink (Z.to_nat (height s - h)) s
            else Ok s);
   let s := with_height s h in
+  let s := with_sup s (Z.min (sup s) (zlen (sb s))) in      (* lines may have been taken back from the scrollback *)
   let s := reset_scroll s in
   let '(x, y) := constrain s x y 0 in
   let s := set_term_cursor s x y in
@@ -874,7 +879,10 @@ Definition content (s : st) : list row :=
   if sup s =? 0 then term s else
   let buf := sb s ++ term s in
   let '(a, b, _) := slice_indices (zlen buf) (Some (- (height s + sup s))) (Some (- sup s)) None in
-  takez (b - a) (dropz a buf).
+  (* scrollback lines keep the width they had when they were scrolled out: pad / cut to the current width *)
+  map (fun line : row => let padding := width s - zlen line in
+                         if 0 <? padding then line ++ repeatz (empty_char s [32]) padding else takez (width s) line)
+      (takez (b - a) (dropz a buf)).
 
 (* Terminal.change_focus's effect on the canvas *)
 Definition set_focus (s : st) (f : bool) : st := set_term_cursor_here (with_has_focus s f).
